@@ -837,6 +837,104 @@ def g_when_probe(rng):
     return {"kind": "probe", "tmpl": "when-" + shape + ":" + "+".join(sorted(set(forms))), "src": helper + "\n".join(main) + "\n", "events": evs, "expect": expect}
 
 
+# --- probes: the SAME flow activated several times while earlier activations are alive (plus `start` calls of the same
+#     flow in between).  The statement, per call: each parameter receives the positional / named argument evaluated in
+#     the caller, or the declared default (None without one) when omitted — so for EVERY call some instance of the flow
+#     runs with exactly that call's parameter values; an `activate` may be served by an activation that already runs only
+#     when ALL parameter values agree (then "its" instance is that one); no instance runs with values nobody passed.
+#     Calls: explicit / omitted / equal / different arguments in every order, positional / named mixes, values drawn from
+#     a small per-parameter pool that contains the declared default (explicit-equal-to-default vs omitted), variables of
+#     the caller as arguments, 1-2 flows with the same signature text, a suffix of the calls issued by a second caller
+#     flow.  Variant `hold`: instances echo their parameters and wait; variant `ping`: every instance lives in its own
+#     interaction loop, echoes again on `Ping`, finishes, and — activated ones — restarts (1-2 rounds).
+
+ACT_VALS = [None, True, False, 2, 7, 12, "x", "y", "", 1.5, [1, 2], [], {"k": 1}]   # `==` on these is type-exact (no 0/1/1.0)
+
+
+def g_act_probe(rng):
+    nfl = rng.choice([1, 1, 1, 2])
+    n = rng.choice([1, 2, 2, 2, 3])
+    names = rng.sample(["p", "q", "tag", "level", "a"], n)
+    pools, params = [], []
+    for nm in names:
+        pool = rng.sample(ACT_VALS, rng.choice([2, 2, 3]))
+        has_d = rng.random() < 0.65
+        d = rng.choice(pool) if has_d and rng.random() < 0.85 else rng.choice(ACT_VALS)
+        if has_d and d is None and rng.random() < 0.7:
+            d = rng.choice([v for v in ACT_VALS if v is not None])
+        params.append({"name": nm, "default": lit(d) if has_d else None})
+        pools.append(pool + ([d] if has_d else [None]))
+    same_sig = rng.random() < 0.6
+    flows = []
+    for fi in range(nfl):
+        ps = params if (fi == 0 or same_sig) else [dict(p_, default=(lit(rng.choice(pl)) if p_["default"] is not None else None)) for p_, pl in zip(params, pools)]
+        flows.append({"name": CALLEES[fi], "params": ps})
+    variant = rng.choice(["hold", "hold", "ping"])
+    ncalls = rng.choice([2, 3, 3, 4, 4, 5, 6, 7])
+    mvars = {}
+    calls = []
+    style = rng.choice(["mixed", "mixed", "explicit-then-omitted", "omitted-then-explicit"])
+    for ci in range(ncalls):
+        form = "activate" if rng.random() < 0.8 else "start"
+        fl = rng.choice(flows)
+        k = rng.choice([0, 0, 1, 1, 2, 3])
+        k = min(k, n)
+        p_omit = {"mixed": 0.4, "explicit-then-omitted": 0.1 if ci < ncalls // 2 else 0.7, "omitted-then-explicit": 0.7 if ci < ncalls // 2 else 0.1}[style]
+        pos, named = [], []
+        for i, nm in enumerate(names):
+            if i >= k and rng.random() < p_omit:
+                continue
+            v = rng.choice(pools[i])
+            if rng.random() < 0.25 and not _is_container(v):
+                vn = "m%d" % len(mvars)
+                mvars[vn] = v
+                e = {"var": vn}
+            else:
+                e = lit(v)
+            if i < k:
+                pos.append(e)
+            else:
+                named.append([nm, e])
+        rng.shuffle(named)
+        calls.append({"form": form, "flow": fl["name"], "pos": pos, "named": named})
+    split = rng.randrange(1, ncalls) if rng.random() < 0.25 else ncalls   # calls[split:] are issued by the second caller `hb`
+    act = {"flows": flows, "calls": calls, "variant": variant, "split": split, "mvars": [[k_, vj.enc(v)] for k_, v in mvars.items()],
+           "pings": rng.choice([1, 2]) if variant == "ping" else 0}
+    return mk_act(act)
+
+
+def mk_act(act):
+    """source text + events of an activation probe (the oracle reads the structured `act`, never the text)"""
+    out = []
+    for f in act["flows"]:
+        pn = [p["name"] for p in f["params"]]
+        echo = ", ".join(["f=" + json.dumps(f["name"])] + [f"{x}=${x}" for x in pn])
+        if act["variant"] == "ping":
+            out.append('@loop("NEW")')
+        out.append(render_sig(f["name"], f["params"], []))
+        out.append(f"  send In({echo})")
+        if act["variant"] == "ping":
+            out += ["  match Ping()", f"  send Out({echo})"]
+        else:
+            out.append("  match Never()")
+        out.append("")
+    mv = [f"  ${k} = {render_val(vj.dec(v))}" for k, v in act["mvars"]]
+
+    def lines(lo, hi):
+        ls = []
+        for ci in range(lo, hi):
+            ls.append("  " + render_stmt(dict(act["calls"][ci], op="call", ret=None)))
+            ls.append(f"  send Done(i={ci})")
+        return ls
+
+    split, ncalls = act["split"], len(act["calls"])
+    if split < ncalls:
+        out += ["flow hb"] + mv + lines(split, ncalls) + ["  send Fin()", "  match Never()", ""]
+    out += ["flow main"] + mv + lines(0, split)
+    out += (["  start hb"] if split < ncalls else ["  send Fin()"]) + ["  match Never()"]
+    return {"kind": "probe", "tmpl": "act-" + act["variant"], "src": "\n".join(out) + "\n", "events": [{"type": "Ping"}] * act["pings"], "act": act}
+
+
 def gen_cases(rng, tier):
     global _TIER
     _TIER = tier
@@ -849,6 +947,7 @@ def gen_cases(rng, tier):
     cases += [g_probe(rng) for _ in range(n_probe)]
     cases += [g_when_probe(rng) for _ in range(2 * n_probe)]
     cases += [g_restart_probe(rng) for _ in range(n_probe)]
+    cases += [g_act_probe(rng) for _ in range(5 * n_probe)]
     return cases
 
 
@@ -1388,6 +1487,88 @@ def oracle_e2e(case, obs, share=False):
     return None
 
 
+def act_tuples(act):
+    """per call: (flow, the parameter values the STATEMENT gives that call) as a canonical key — positional | named |
+    declared default | None, arguments evaluated in the caller"""
+    flows = {f["name"]: f for f in act["flows"]}
+    menv = {k: vj.dec(v) for k, v in act["mvars"]}
+    keys = []
+    for c in act["calls"]:
+        params = flows[c["flow"]]["params"]
+        env = spec_bind(params, [spec_eval(e, menv, {}, set()) for e in c["pos"]], {k: spec_eval(e, menv, {}, set()) for k, e in c["named"]})
+        keys.append(json.dumps([c["flow"], [[p["name"], _cenc(env[p["name"]])] for p in params]], sort_keys=True))
+    return keys
+
+
+def oracle_act(case, obs):
+    act = case["act"]
+    flows = {f["name"]: f for f in act["flows"]}
+    calls = act["calls"]
+    n = len(calls)
+    try:
+        want = act_tuples(act)
+    except _NoExpectation:
+        return None
+    out = obs["out"]
+
+    def key(e):
+        f = (e[1].get("f") or {}).get("s")
+        if f not in flows:
+            return json.dumps(["?", e[1]], sort_keys=True)
+        return json.dumps([f, [[p["name"], e[1].get(p["name"])] for p in flows[f]["params"]]], sort_keys=True)
+
+    first_out = next((i for i, e in enumerate(out) if e[0] == "Out"), len(out))
+    ph0 = out[:first_out]
+    done = [e[1].get("i") for e in ph0 if e[0] == "Done"]
+    d = len(done)
+    if done != [{"i": k} for k in range(d)]:
+        return f"call markers {done}: not 0..{d - 1} in order"
+    issued = min(d + 1, n)   # the call a caller is blocked in has been issued too
+    import collections
+
+    ins0 = collections.Counter(key(e) for e in ph0 if e[0] == "In")
+    src_of = lambda ci: render_stmt(dict(calls[ci], op="call", ret=None))  # noqa
+    for ci in range(issued):
+        if ins0[want[ci]] == 0:
+            return (f"call #{ci} `{src_of(ci)}`: no instance ran with the call's parameter values {want[ci]} "
+                    f"(instances ran with {sorted(ins0)})")
+    w_all = collections.Counter(want[:issued])
+    w_start = collections.Counter(want[ci] for ci in range(issued) if calls[ci]["form"] != "activate")
+    w_act = {want[ci] for ci in range(issued) if calls[ci]["form"] == "activate"}
+    for t, c in ins0.items():
+        if w_all[t] == 0:
+            return f"an instance ran with parameter values no call has: {t}"
+        if c > w_all[t]:
+            return f"{c} instances ran with {t}, only {w_all[t]} calls have these values"
+    for t in w_all:
+        if ins0[t] < w_start[t] + (1 if t in w_act else 0):
+            return f"{ins0[t]} instances ran with {t}: fewer than its `start` calls ({w_start[t]}) plus one for its activations"
+    if d < n:
+        # the caller did not get past call #d.  Progress is not in the statement where an `activate` with positional
+        # arguments is served by an activation that an earlier call created with fewer positionals (FlowStarted of the
+        # serving instance lacks `$i`: documented hand-shake quirk); everywhere else the caller has to continue
+        c = calls[d]
+        quirk = c["form"] == "activate" and c["pos"] and any(
+            calls[j]["form"] == "activate" and want[j] == want[d] and len(calls[j]["pos"]) < len(c["pos"]) for j in range(d))
+        if not quirk:
+            return f"the caller did not continue after call #{d} `{src_of(d)}`"
+    elif not any(e[0] == "Fin" for e in ph0):
+        return "the caller did not reach its end (no Fin)"
+    if act["pings"]:
+        # every instance echoes once more per Ping with the values it was started with; an activated one restarts — on
+        # behalf of the same call, so with the same values
+        rest = ins0 - w_start
+        exp_in = ins0 + collections.Counter({t: c * act["pings"] for t, c in rest.items()})
+        exp_out = ins0 + collections.Counter({t: c * (act["pings"] - 1) for t, c in rest.items()})
+        got_in = collections.Counter(key(e) for e in out if e[0] == "In")
+        got_out = collections.Counter(key(e) for e in out if e[0] == "Out")
+        if got_out != exp_out:
+            return f"echoes after Ping: {sorted(got_out.items())}, expected {sorted(exp_out.items())}"
+        if got_in != exp_in:
+            return f"instances started (incl. restarts): {sorted(got_in.items())}, expected {sorted(exp_in.items())}"
+    return None
+
+
 def oracle(case, obs):
     if "skip" in obs:
         return None
@@ -1420,6 +1601,8 @@ def oracle(case, obs):
     # probe
     if "exc" in obs:
         return f"run_to_completion raised {obs['exc']}"
+    if "act" in case:
+        return oracle_act(case, obs)
     if case.get("expect") is not None:
         exp = [[n, {k: _cenc(v) for k, v in a.items()}] for n, a in case["expect"]]
         if obs["out"] != exp:
@@ -1538,7 +1721,43 @@ def tags(case, obs):
                 t.append("has:return-member")
     else:
         t.append("probe:" + case["tmpl"])
+        if "act" in case:
+            t.extend(act_tags(case["act"]))
     return t
+
+
+def act_tags(act):
+    t = ["act:calls=%d" % len(act["calls"]), "act:flows=%d" % len(act["flows"])]
+    try:
+        want = act_tuples(act)
+    except _NoExpectation:
+        return t + ["act:no-expectation"]
+    calls = act["calls"]
+    flows = {f["name"]: f for f in act["flows"]}
+
+    def omitted(c):
+        ps = flows[c["flow"]]["params"]
+        return {p["name"] for i, p in enumerate(ps) if i >= len(c["pos"]) and p["name"] not in [k for k, _ in c["named"]]}
+
+    for j in range(len(calls)):
+        for i in range(j):
+            if calls[i]["flow"] != calls[j]["flow"] or calls[i]["form"] != "activate" or calls[j]["form"] != "activate":
+                continue
+            if want[i] == want[j]:
+                t.append("act:same-values-again")
+                if omitted(calls[i]) != omitted(calls[j]):
+                    t.append("act:same-values-other-shape")
+            else:
+                t.append("act:different-values")
+                if omitted(calls[j]) - omitted(calls[i]):
+                    t.append("act:omits-what-earlier-passed")   # later call relies on a default an earlier one overrode
+                if omitted(calls[i]) - omitted(calls[j]):
+                    t.append("act:passes-what-earlier-omitted")
+    if act["split"] < len(calls):
+        t.append("act:two-callers")
+    if any(c["form"] == "start" for c in calls):
+        t.append("act:with-start")
+    return sorted(set(t))
 
 
 def escalate(rng, focus, tier):
